@@ -104,7 +104,8 @@ impl OperationControl for GreedyFixed {
         }
         Box::new(IntStepIterator::new(
             p,
-            -(self.len as i64),
+            // (a length beyond i64 is longer than any input: one step leaves the range)
+            -i64::try_from(self.len).unwrap_or(i64::MAX),
             position + self.len * self.min,
         ))
     }
